@@ -1,4 +1,7 @@
 import TnVerif.Model.Maxvol
+import TnVerif.Model.RectMaxvol
+import TnVerif.Lemmas.RectMaxvol
+import Mathlib.Algebra.Order.Field.Rat
 import Mathlib.Algebra.Field.Basic
 import Mathlib.Algebra.BigOperators.Ring.Finset
 import Mathlib.Algebra.BigOperators.Intervals
@@ -163,5 +166,581 @@ theorem loop_stops_below_tol (r N : Nat) (tol : K) : ∀ (fuel : Nat) (s : MVSta
       simp only [List.length_cons]
       omega
     · rename_i hle; exact hle
+
+
+/-! ## The rectangular routine `py_rect_maxvol` (maxvol.py:30-112)
+
+The answer `(tmp_index, C)` of the inner `py_maxvol` call is the initial state (contract: `C·A[tmp_index] = A`,
+the indices are distinct candidate rows).  All statements are for any sizes, over any ordered field (exact arithmetic). -/
+
+/-- `C · A[index[:K]] = A` for a state of the rectangular routine: row `l` of `A` is the combination of the `K` chosen
+    rows with the coefficients in row `l` of `C` -/
+def RectReconstructs (s : RMVState K) (A : Nat → Nat → K) : Prop :=
+  ∀ l c, A l c = ∑ k ∈ range s.K, s.C.get l k * A (s.index.get k) c
+
+omit [IsStrictOrderedRing K] in
+/-- **one augmentation keeps `C · A[index[:K]] = A`** (the "SVM formula" step): with row `i` appended and
+    `C' = [C − l·v⊗c , l·v]` one has `C'·[A_idx; A_i] = A`, because `A_i = c·A_idx` is row `i` of the identity before the step.
+    No condition on `l`, `v` or on the row `i` that enters. -/
+theorem rect_step_reconstructs (N top : Nat) (s : RMVState K) (A : Nat → Nat → K) (h : RectReconstructs s A) :
+    RectReconstructs (rectmvStep N top s) A := by
+  intro l c
+  rw [rectmvStep_K, Finset.sum_range_succ]
+  have e : ∀ k ∈ range s.K, (rectmvStep N top s).C.get l k * A ((rectmvStep N top s).index.get k) c =
+      (s.C.get l k + (-rectmvLam s) * rectmvV s l * s.C.get s.i k) * A (s.index.get k) c := by
+    intro k hk
+    have hk' := Finset.mem_range.mp hk
+    have hne : k ≠ s.K := by omega
+    rw [rectmvStep_C, rectmvStep_index]
+    simp only [hk', if_true, hne, if_false]
+  rw [Finset.sum_congr rfl e, rectmvStep_C, rectmvStep_index]
+  simp only [lt_irrefl, if_false, if_true]
+  exact (rectmv_recon_update s.K (fun k => s.C.get l k) (fun k => s.C.get s.i k) (fun k => A (s.index.get k) c)
+    (rectmvLam s) (rectmvV s l) (A l c) (A s.i c) (h l c) (h s.i c)).symm
+
+omit [IsStrictOrderedRing K] in
+/-- **(a) `rect_reconstructs`: the reconstruction `C · A[index[:K]] = A` holds along the whole augmentation loop** of
+    `py_rect_maxvol`, whatever the parameters, once it holds for the start (the contract of `py_maxvol`) -/
+theorem rect_reconstructs (N top maxK minK : Nat) (tol2 : K) (A : Nat → Nat → K) :
+    ∀ (fuel : Nat) (s : RMVState K), RectReconstructs s A →
+      RectReconstructs (rectmvLoop N top maxK minK tol2 fuel s) A := by
+  intro fuel
+  induction fuel with
+  | zero => intro s h; exact h
+  | succ fuel ih =>
+    intro s h
+    simp only [rectmvLoop]
+    split
+    · exact ih _ (rect_step_reconstructs N top s A h)
+    · exact h
+
+/-- the bookkeeping invariants of the loop, for `top` candidate rows (`top_k_index` after the clamps) -/
+structure RectInv (top : Nat) (s : RMVState K) : Prop where
+  /-- `chosen` holds zeros and ones -/
+  chosen01 : ∀ l, l < top → s.chosen.get l = 0 ∨ s.chosen.get l = 1
+  /-- the chosen rows are candidate rows … -/
+  idx_lt : ∀ k, k < s.K → s.index.get k < top
+  /-- … marked as chosen -/
+  idx_chosen : ∀ k, k < s.K → s.chosen.get (s.index.get k) = 0
+  /-- and only they are marked -/
+  chosen_idx : ∀ l, l < top → s.chosen.get l = 0 → ∃ k, k < s.K ∧ s.index.get k = l
+  /-- the chosen rows are pairwise distinct -/
+  distinct : ∀ k, k < s.K → ∀ k', k' < s.K → k ≠ k' → s.index.get k ≠ s.index.get k'
+  /-- `row_norm_sqr[l] = chosen[l] · ‖C[l]‖²` -/
+  norms : ∀ l, l < top → s.rns.get l = s.chosen.get l * ∑ k ∈ range s.K, s.C.get l k * s.C.get l k
+  /-- `i` is the current `argmax` -/
+  arg : s.i = rectmvArgmax top s.chosen s.rns
+
+/-- a row that is not chosen yet exists as long as fewer than `top` rows are chosen (pigeonhole) -/
+theorem rect_exists_unchosen (top : Nat) (s : RMVState K) (h : RectInv top s) (hK : s.K < top) :
+    ∃ l, l < top ∧ 0 < s.chosen.get l := by
+  by_contra hno
+  have hall : ∀ l, l < top → s.chosen.get l = 0 := by
+    intro l hl
+    rcases h.chosen01 l hl with h0 | h1
+    · exact h0
+    · exact absurd ⟨l, hl, by rw [h1]; exact one_pos⟩ hno
+  have hsub : range top ⊆ (range s.K).image s.index.get := by
+    intro l hl
+    obtain ⟨k, hk, e⟩ := h.chosen_idx l (Finset.mem_range.mp hl) (hall l (Finset.mem_range.mp hl))
+    exact Finset.mem_image.mpr ⟨k, Finset.mem_range.mpr hk, e⟩
+  have h1 := Finset.card_le_card hsub
+  have h2 := Finset.card_image_le (s := range s.K) (f := s.index.get)
+  simp only [Finset.card_range] at h1 h2
+  omega
+
+/-- when the guard of the loop lets row `i` enter, `i` is a candidate row that is not chosen yet — provided
+    `minK ≤ top_k_index` (always true with the default `top_k_index = -1`) -/
+theorem rect_guard_unchosen (top maxK minK : Nat) (tol2 : K) (htol : 0 ≤ tol2) (htop : 0 < top) (hmin : minK ≤ top)
+    (s : RMVState K) (h : RectInv top s) (hg : rectmvGuard maxK minK tol2 s = true) :
+    s.i < top ∧ s.chosen.get s.i = 1 := by
+  have hi : s.i < top := by rw [h.arg]; exact rectmvArgmax_lt top _ _ htop
+  refine ⟨hi, ?_⟩
+  simp only [rectmvGuard, Bool.or_eq_true, Bool.and_eq_true, decide_eq_true_eq] at hg
+  rcases hg with ⟨hlt, _⟩ | hlt
+  · rcases h.chosen01 s.i hi with h0 | h1
+    · rw [h.norms s.i hi, h0, zero_mul] at hlt
+      exact absurd hlt (not_lt.mpr htol)
+    · exact h1
+  · obtain ⟨l, hl, hc⟩ := rect_exists_unchosen top s h (by omega)
+    have hsp := (rectmvArgmax_spec top s.chosen s.rns l hl hc).1
+    rw [← h.arg] at hsp
+    rcases h.chosen01 s.i hi with h0 | h1
+    · rw [h0] at hsp; exact absurd hsp (lt_irrefl _)
+    · exact h1
+
+/-- the row-norm bookkeeping of one augmentation: `‖C'[l]‖² = ‖C[l]‖² − l·v[l]²` (needs `1 + ‖c‖² ≠ 0`: ordered field) -/
+theorem rect_step_norm (N top : Nat) (s : RMVState K) (l : Nat) :
+    (∑ k ∈ range (s.K + 1), (rectmvStep N top s).C.get l k * (rectmvStep N top s).C.get l k) =
+      (∑ k ∈ range s.K, s.C.get l k * s.C.get l k) + -(rectmvLam s * rectmvV s l * rectmvV s l) := by
+  rw [Finset.sum_range_succ]
+  have e : ∀ k ∈ range s.K, (rectmvStep N top s).C.get l k * (rectmvStep N top s).C.get l k =
+      (s.C.get l k + (-rectmvLam s) * rectmvV s l * s.C.get s.i k) * (s.C.get l k + (-rectmvLam s) * rectmvV s l * s.C.get s.i k) := by
+    intro k hk
+    have hk' := Finset.mem_range.mp hk
+    rw [rectmvStep_C]
+    simp only [hk', if_true]
+  rw [Finset.sum_congr rfl e, rectmvStep_C]
+  simp only [lt_irrefl, if_false]
+  exact rectmv_norm_update s.K (fun k => s.C.get l k) (fun k => s.C.get s.i k) (rectmvLam s) (rectmvV s l) (rectmvV s s.i)
+    rfl rfl rfl
+
+/-- **one augmentation keeps the bookkeeping invariants** when the entering row is an unchosen candidate -/
+theorem rect_step_inv (N top : Nat) (s : RMVState K) (h : RectInv top s) (hi : s.i < top) (hc : s.chosen.get s.i = 1) :
+    RectInv top (rectmvStep N top s) := by
+  have hnew : ∀ k, k < s.K → s.index.get k ≠ s.i := by
+    intro k hk e
+    have := h.idx_chosen k hk
+    rw [e, hc] at this
+    exact one_ne_zero this
+  constructor
+  · intro l hl
+    rw [rectmvStep_chosen]
+    by_cases e : l = s.i
+    · simp [e]
+    · simp only [e, if_false]; exact h.chosen01 l hl
+  · intro k hk
+    rw [rectmvStep_K] at hk
+    rw [rectmvStep_index]
+    by_cases e : k = s.K
+    · simp only [e, if_true]; exact hi
+    · simp only [e, if_false]; exact h.idx_lt k (by omega)
+  · intro k hk
+    rw [rectmvStep_K] at hk
+    rw [rectmvStep_index, rectmvStep_chosen]
+    by_cases e : k = s.K
+    · simp [e]
+    · simp only [e, if_false, hnew k (by omega)]; exact h.idx_chosen k (by omega)
+  · intro l hl hz
+    rw [rectmvStep_chosen] at hz
+    by_cases e : l = s.i
+    · refine ⟨s.K, by simp, ?_⟩
+      rw [rectmvStep_index]; simp [e]
+    · simp only [e, if_false] at hz
+      obtain ⟨k, hk, hk2⟩ := h.chosen_idx l hl hz
+      refine ⟨k, by rw [rectmvStep_K]; omega, ?_⟩
+      rw [rectmvStep_index]
+      have : k ≠ s.K := by omega
+      simp only [this, if_false]; exact hk2
+  · intro k hk k' hk' hne
+    rw [rectmvStep_K] at hk hk'
+    rw [rectmvStep_index, rectmvStep_index]
+    by_cases e : k = s.K
+    · have e' : k' ≠ s.K := by omega
+      simp only [e, if_true, e', if_false]
+      exact fun q => hnew k' (by omega) q.symm
+    · by_cases e' : k' = s.K
+      · simp only [e, if_false, e', if_true]; exact hnew k (by omega)
+      · simp only [e, e', if_false]; exact h.distinct k (by omega) k' (by omega) hne
+  · intro l hl
+    rw [rectmvStep_rns, rectmvStep_chosen, rectmvStep_K, rect_step_norm]
+    by_cases e : l = s.i
+    · simp [e]
+    · simp only [e, if_false]
+      rcases h.chosen01 l hl with h0 | h1
+      · rw [h0]; ring
+      · rw [h.norms l hl, h1]; ring
+  · exact rectmvStep_i N top s
+
+/-- **(b) the bookkeeping invariants hold along the whole loop**, in particular the chosen rows stay pairwise
+    distinct and `row_norm_sqr` stays the squared row norms of `C` on the unchosen rows — under `minK ≤ top_k_index`
+    (both after the clamps; automatically true for the default `top_k_index = -1`) and `tol2 = tol² ≥ 0` -/
+theorem rect_loop_inv (N top maxK minK : Nat) (tol2 : K) (htol : 0 ≤ tol2) (htop : 0 < top) (hmin : minK ≤ top) :
+    ∀ (fuel : Nat) (s : RMVState K), RectInv top s → RectInv top (rectmvLoop N top maxK minK tol2 fuel s) := by
+  intro fuel
+  induction fuel with
+  | zero => intro s h; exact h
+  | succ fuel ih =>
+    intro s h
+    simp only [rectmvLoop]
+    split
+    · rename_i hg
+      obtain ⟨hi, hc⟩ := rect_guard_unchosen top maxK minK tol2 htol htop hmin s h hg
+      exact ih _ (rect_step_inv N top s h hi hc)
+    · exact h
+
+/-- **(b) `rect_distinct`: the rows chosen by the loop are pairwise distinct candidate rows** (under `minK ≤ top_k_index`,
+    see `rect_exhausted_repeats` for what happens otherwise) -/
+theorem rect_distinct (N top maxK minK : Nat) (tol2 : K) (htol : 0 ≤ tol2) (htop : 0 < top) (hmin : minK ≤ top)
+    (fuel : Nat) (s : RMVState K) (h : RectInv top s) :
+    (∀ k, k < (rectmvLoop N top maxK minK tol2 fuel s).K → ∀ k', k' < (rectmvLoop N top maxK minK tol2 fuel s).K → k ≠ k' →
+      (rectmvLoop N top maxK minK tol2 fuel s).index.get k ≠ (rectmvLoop N top maxK minK tol2 fuel s).index.get k') ∧
+    (∀ k, k < (rectmvLoop N top maxK minK tol2 fuel s).K → (rectmvLoop N top maxK minK tol2 fuel s).index.get k < top) :=
+  ⟨(rect_loop_inv N top maxK minK tol2 htol htop hmin fuel s h).distinct,
+   (rect_loop_inv N top maxK minK tol2 htol htop hmin fuel s h).idx_lt⟩
+
+omit [IsStrictOrderedRing K] in
+/-- **the side condition `minK ≤ top_k_index` of the distinctness cannot be dropped**: once all `top_k_index` candidate
+    rows are chosen (`K = top_k_index`), every `chosen` entry is 0, `argmax` of the all-`-inf` vector answers 0, and if the
+    loop goes on (it does while `K < minK`) row 0 — already chosen — enters a second time.  This happens in the library for
+    a call such as `py_rect_maxvol(A, minK=r+1, top_k_index=r)`. -/
+theorem rect_exhausted_repeats (N top : Nat) (s : RMVState K) (h : RectInv top s) (htop : 0 < top) (hK : s.K = top) :
+    s.i = 0 ∧ ∃ k, k < s.K ∧ (rectmvStep N top s).index.get k = (rectmvStep N top s).index.get s.K := by
+  -- the K distinct chosen rows fill the candidate range
+  have himg : (range s.K).image s.index.get = range top := by
+    apply Finset.eq_of_subset_of_card_le
+    · intro x hx
+      obtain ⟨k, hk, e⟩ := Finset.mem_image.mp hx
+      rw [← e]; exact Finset.mem_range.mpr (h.idx_lt k (Finset.mem_range.mp hk))
+    · rw [Finset.card_image_of_injOn, Finset.card_range, Finset.card_range, hK]
+      intro a ha b hb e
+      by_contra hne
+      exact h.distinct a (Finset.mem_range.mp (Finset.mem_coe.mp ha)) b (Finset.mem_range.mp (Finset.mem_coe.mp hb)) hne e
+  have hall : ∀ l, l < top → s.chosen.get l = 0 := by
+    intro l hl
+    have : l ∈ (range s.K).image s.index.get := by rw [himg]; exact Finset.mem_range.mpr hl
+    obtain ⟨k, hk, e⟩ := Finset.mem_image.mp this
+    rw [← e]; exact h.idx_chosen k (Finset.mem_range.mp hk)
+  have hi : s.i = 0 := by
+    rw [h.arg, rectmvArgmax]
+    apply rectmvArgmaxTo_none
+    intro l hl
+    simp [rectmvMasked, hall l hl]
+  refine ⟨hi, ?_⟩
+  obtain ⟨k, hk, e⟩ := h.chosen_idx 0 htop (hall 0 htop)
+  refine ⟨k, hk, ?_⟩
+  have hne : k ≠ s.K := by omega
+  rw [rectmvStep_index, rectmvStep_index]
+  simp only [hne, if_false, if_true, hi]; exact e
+
+omit [IsStrictOrderedRing K] in
+/-- `K` never decreases along the loop -/
+theorem rect_loop_K_ge (N top maxK minK : Nat) (tol2 : K) :
+    ∀ (fuel : Nat) (s : RMVState K), s.K ≤ (rectmvLoop N top maxK minK tol2 fuel s).K := by
+  intro fuel
+  induction fuel with
+  | zero => intro s; exact Nat.le_refl _
+  | succ fuel ih =>
+    intro s
+    simp only [rectmvLoop]
+    split
+    · have := ih (rectmvStep N top s); rw [rectmvStep_K] at this; omega
+    · exact Nat.le_refl _
+
+omit [IsStrictOrderedRing K] in
+/-- `K` never exceeds `maxK` (every pass of the loop has `K < maxK`, because `minK ≤ maxK` after the clamps) -/
+theorem rect_loop_K_le (N top maxK minK : Nat) (tol2 : K) (hmm : minK ≤ maxK) :
+    ∀ (fuel : Nat) (s : RMVState K), s.K ≤ maxK → (rectmvLoop N top maxK minK tol2 fuel s).K ≤ maxK := by
+  intro fuel
+  induction fuel with
+  | zero => intro s h; exact h
+  | succ fuel ih =>
+    intro s h
+    simp only [rectmvLoop]
+    split
+    · rename_i hg
+      simp only [rectmvGuard, Bool.or_eq_true, Bool.and_eq_true, decide_eq_true_eq] at hg
+      apply ih; rw [rectmvStep_K]; omega
+    · exact h
+
+omit [IsStrictOrderedRing K] in
+/-- **the fuel `maxK − K` is enough**: the state the model returns is one where the `while` condition of the code is
+    false, i.e. the model's loop is the code's loop -/
+theorem rect_loop_exit (N top maxK minK : Nat) (tol2 : K) (hmm : minK ≤ maxK) :
+    ∀ (fuel : Nat) (s : RMVState K), maxK - s.K ≤ fuel →
+      rectmvGuard maxK minK tol2 (rectmvLoop N top maxK minK tol2 fuel s) = false := by
+  intro fuel
+  induction fuel with
+  | zero =>
+    intro s h
+    have h1 : ¬ s.K < maxK := by omega
+    have h2 : ¬ s.K < minK := by omega
+    simp [rectmvLoop, rectmvGuard, h1, h2]
+  | succ fuel ih =>
+    intro s h
+    simp only [rectmvLoop]
+    split
+    · rename_i hg
+      simp only [rectmvGuard, Bool.or_eq_true, Bool.and_eq_true, decide_eq_true_eq] at hg
+      apply ih; rw [rectmvStep_K]; omega
+    · rename_i hg; simpa using hg
+
+/-- **(c) `rect_row_norms`: in a state where the loop has stopped with `K < maxK`, every candidate row that is not chosen
+    has squared 2-norm at most `tol2 = tol²`** ("2-norm at most the tolerance unless maxK was reached").
+    Candidate rows are the rows `l < top_k_index`; rows beyond `top_k_index` are never looked at. -/
+theorem rect_row_norms (top maxK minK : Nat) (tol2 : K) (s : RMVState K) (h : RectInv top s)
+    (hstop : rectmvGuard maxK minK tol2 s = false) (hK : s.K < maxK)
+    (l : Nat) (hl : l < top) (hun : ∀ k, k < s.K → s.index.get k ≠ l) :
+    ∑ k ∈ range s.K, s.C.get l k * s.C.get l k ≤ tol2 := by
+  have hc : s.chosen.get l = 1 := by
+    rcases h.chosen01 l hl with h0 | h1
+    · obtain ⟨k, hk, e⟩ := h.chosen_idx l hl h0
+      exact absurd e (hun k hk)
+    · exact h1
+  have hsp := (rectmvArgmax_spec top s.chosen s.rns l hl (by rw [hc]; exact one_pos)).2
+  rw [← h.arg, h.norms l hl, hc, one_mul] at hsp
+  simp only [rectmvGuard, Bool.or_eq_false_iff, Bool.and_eq_false_iff, decide_eq_false_iff_not] at hstop
+  rcases hstop.1 with h1 | h1
+  · exact le_trans hsp (not_lt.mp h1)
+  · exact absurd hK h1
+
+/-! ### the state before the loop -/
+
+omit [IsStrictOrderedRing K] in
+/-- the contract of the inner `py_maxvol` call (`C₀·A[tmp_index] = A`, existing predicate `Reconstructs` on its final state)
+    is the reconstruction identity of the state before the loop -/
+theorem rect_init_reconstructs (N r top : Nat) (st : MVState K) (A : Nat → Nat → K) (h : Reconstructs r st A) :
+    RectReconstructs (rectmvInit N r top st.idx (fun l k => st.C k l)) A := by
+  intro l c
+  rw [rectmvInit_K, h l c]
+  apply Finset.sum_congr rfl
+  intro k hk
+  rw [rectmvInit_C, rectmvInit_index]
+  simp [Finset.mem_range.mp hk]
+
+/-- the bookkeeping invariants hold before the loop when `py_maxvol` returned distinct candidate rows -/
+theorem rect_init_inv (N r top : Nat) (tmp : Nat → Nat) (C0 : Nat → Nat → K)
+    (hlt : ∀ k, k < r → tmp k < top) (hd : ∀ k, k < r → ∀ k', k' < r → k ≠ k' → tmp k ≠ tmp k') :
+    RectInv top (rectmvInit N r top tmp C0) := by
+  constructor
+  · intro l _
+    rw [rectmvInit_chosen]
+    by_cases e : ∃ k, k < r ∧ tmp k = l
+    · simp [e]
+    · simp [e]
+  · intro k hk
+    rw [rectmvInit_K] at hk
+    rw [rectmvInit_index]; simp only [hk, if_true]; exact hlt k hk
+  · intro k hk
+    rw [rectmvInit_K] at hk
+    rw [rectmvInit_index, rectmvInit_chosen]; simp only [hk, if_true]
+    have : ∃ k', k' < r ∧ tmp k' = tmp k := ⟨k, hk, rfl⟩
+    simp [this]
+  · intro l _ hz
+    rw [rectmvInit_chosen] at hz
+    by_cases e : ∃ k, k < r ∧ tmp k = l
+    · obtain ⟨k, hk, hk2⟩ := e
+      refine ⟨k, hk, ?_⟩
+      rw [rectmvInit_index]; simp only [hk, if_true]; exact hk2
+    · simp [e] at hz
+  · intro k hk k' hk' hne
+    rw [rectmvInit_K] at hk hk'
+    rw [rectmvInit_index, rectmvInit_index]; simp only [hk, hk', if_true]
+    exact hd k hk k' hk' hne
+  · intro l _
+    rw [rectmvInit_rns, rectmvInit_K]
+    apply congrArg
+    apply Finset.sum_congr rfl
+    intro k _
+    rw [rectmvInit_C]
+  · rfl
+
+/-! ### the final assignment `C[index[:K]] = eye(K)` -/
+
+/-- **(d) before the final assignment the chosen rows of `C` are NOT unit vectors**: the row that has just entered is
+    `(l·c , 1 − l)` with `l = 1/(1+‖c‖²) < 1` unless `c = 0` (and an earlier chosen row `e_k` becomes `(e_k − l·c_k·c , l·c_k)`).
+    `C` is the minimum-norm coefficient matrix; the identity block is only produced by the assignment
+    `C[index[:K]] = eye(K)` (`identity_submatrix=True`), which `rect_setRows_reconstructs` shows to be harmless. -/
+theorem rect_step_entering_row (N top : Nat) (s : RMVState K) (k : Nat) :
+    (rectmvStep N top s).C.get s.i k = if k < s.K then rectmvLam s * s.C.get s.i k else 1 - rectmvLam s := by
+  have h := rectmvLam_mul s
+  rw [rectmvStep_C]
+  split
+  · linear_combination (-(s.C.get s.i k)) * h
+  · linear_combination h
+
+omit [LinearOrder K] [IsStrictOrderedRing K] in
+/-- **(d) the final assignment keeps `C · A[index[:K]] = A`** — with or without repeated rows: the rows it writes are unit
+    vectors that reproduce their own row of `A` -/
+theorem rect_setRows_reconstructs (m : Nat) (index : Nat → Nat) (C : Nat → Nat → K) (A : Nat → Nat → K)
+    (h : ∀ l c, A l c = ∑ k ∈ range m, C l k * A (index k) c) :
+    ∀ l c, A l c = ∑ k ∈ range m, rectmvSetRows index C m l k * A (index k) c := by
+  intro l c
+  rcases rectmvSetRows_row index C l m with ⟨k, hk, hk2, hk3⟩ | hr
+  · have e : ∀ k' ∈ range m, rectmvSetRows index C m l k' * A (index k') c = if k = k' then A (index k') c else 0 := by
+      intro k' _; rw [hk3 k']; split <;> simp
+    rw [Finset.sum_congr rfl e, Finset.sum_ite_eq (range m) k]
+    simp [hk, hk2]
+  · rw [h l c]
+    apply Finset.sum_congr rfl
+    intro k _; rw [hr k]
+
+omit [LinearOrder K] [IsStrictOrderedRing K] in
+/-- **(d) `rect_identity_rows`: after the final assignment `C[index[:K]] = eye(K)` the chosen rows of `C` form the identity
+    (chosen rows distinct) and `C · A[index[:K]] = A` still holds** -/
+theorem rect_identity_rows (s : RMVState K) (A : Nat → Nat → K) (hrec : RectReconstructs s A)
+    (hd : ∀ k, k < s.K → ∀ k', k' < s.K → k ≠ k' → s.index.get k ≠ s.index.get k') :
+    (∀ k, k < s.K → ∀ k', rectmvSetRows s.index.get s.C.get s.K (s.index.get k) k' = if k = k' then 1 else 0) ∧
+    (∀ l c, A l c = ∑ k ∈ range s.K, rectmvSetRows s.index.get s.C.get s.K l k * A (s.index.get k) c) :=
+  ⟨fun k hk k' => rectmvSetRows_chosen s.index.get s.C.get s.K hd k hk k',
+   rect_setRows_reconstructs s.K s.index.get s.C.get A hrec⟩
+
+/-! ### the whole routine -/
+
+/-- **`py_rect_maxvol` on a tall matrix (`N > r`)**, given the answer `st` of the inner `py_maxvol` call with its contract
+    (`C₀·A[idx₀] = A`, the `r` indices distinct and among the `top_k_index` candidate rows).  With `p` the parameters after
+    the clamps the routine returns `K` rows with
+
+    * `r ≤ minK ≤ K ≤ maxK ≤ N`  (between `r` and `maxK` rows);
+    * `C · A[index] = A` for the returned `N × K` matrix `C` — with `identity_submatrix` on or off, whatever the parameters;
+
+    and, when `minK ≤ top_k_index` (both after the clamps; always the case for the default `top_k_index = -1`, see
+    `rect_maxvol_spec_default`):
+
+    * the returned rows are pairwise distinct candidate rows;
+    * with `identity_submatrix` the chosen rows of `C` form the identity;
+    * if `K < maxK`, every candidate row that was not chosen has squared 2-norm at most `tol²` in `C`. -/
+theorem rect_maxvol_spec (N r : Nat) (tol : K) (maxK minAddK minK : Option Int) (ident : Bool) (topK : Int)
+    (st : MVState K) (A : Nat → Nat → K) (hN : r < N)
+    (htop : 0 < (rectmvParams N r maxK minAddK minK topK).top)
+    (hrec : Reconstructs r st A) (hdist : Distinct r st)
+    (hlt : ∀ k, k < r → st.idx k < (rectmvParams N r maxK minAddK minK topK).top) :
+    ∃ res, pyRectMaxvol N r tol maxK minAddK minK ident topK st.idx (fun l k => st.C k l) = some res ∧
+      r ≤ res.K ∧ (rectmvParams N r maxK minAddK minK topK).minK ≤ res.K ∧
+      res.K ≤ (rectmvParams N r maxK minAddK minK topK).maxK ∧ res.K ≤ N ∧ res.index.length = res.K ∧
+      (∀ l c, A l c = ∑ k ∈ range res.K, res.C.get l k * A (res.index.getD k 0) c) ∧
+      ((rectmvParams N r maxK minAddK minK topK).minK ≤ (rectmvParams N r maxK minAddK minK topK).top →
+        res.index.Nodup ∧ (∀ x ∈ res.index, x < (rectmvParams N r maxK minAddK minK topK).top) ∧
+        (ident = true → ∀ k, k < res.K → ∀ k', res.C.get (res.index.getD k 0) k' = if k = k' then 1 else 0) ∧
+        (res.K < (rectmvParams N r maxK minAddK minK topK).maxK → ∀ l, l < (rectmvParams N r maxK minAddK minK topK).top →
+          l ∉ res.index → ∑ k ∈ range res.K, res.C.get l k * res.C.get l k ≤ tol * tol)) := by
+  obtain ⟨hb1, hb2, hb3, _, _⟩ := rectmvParams_bounds N r maxK minAddK minK topK hN
+  rw [pyRectMaxvol_tall N r tol maxK minAddK minK ident topK st.idx _ hN htop]
+  generalize rectmvParams N r maxK minAddK minK topK = p at *
+  -- the state after the loop
+  have hs0 : RectReconstructs (rectmvInit N r p.top st.idx (fun l k => st.C k l)) A :=
+    rect_init_reconstructs N r p.top st A hrec
+  generalize hs : rectmvLoop N p.top p.maxK p.minK (tol * tol) (p.maxK - r)
+    (rectmvInit N r p.top st.idx (fun l k => st.C k l)) = s at *
+  have hsrec : RectReconstructs s A := by
+    rw [← hs]; exact rect_reconstructs N p.top p.maxK p.minK (tol * tol) A _ _ hs0
+  have hKge : r ≤ s.K := by
+    rw [← hs]; exact rect_loop_K_ge N p.top p.maxK p.minK (tol * tol) _ (rectmvInit N r p.top st.idx (fun l k => st.C k l))
+  have hKle : s.K ≤ p.maxK := by
+    rw [← hs]; exact rect_loop_K_le N p.top p.maxK p.minK (tol * tol) hb2 _ _ (by rw [rectmvInit_K]; omega)
+  have hstop : rectmvGuard p.maxK p.minK (tol * tol) s = false := by
+    rw [← hs]; exact rect_loop_exit N p.top p.maxK p.minK (tol * tol) hb2 _ _ (by rw [rectmvInit_K])
+  have hKmin : p.minK ≤ s.K := by
+    simp only [rectmvGuard, Bool.or_eq_false_iff, decide_eq_false_iff_not] at hstop
+    omega
+  have hget : ∀ k, k < s.K → ((List.range s.K).map s.index.get).getD k 0 = s.index.get k := by
+    intro k hk; simp [hk]
+  have hmem : ∀ x, x ∈ (List.range s.K).map s.index.get ↔ ∃ k, k < s.K ∧ s.index.get k = x := by
+    intro x; simp [List.mem_map]
+  refine ⟨_, rfl, hKge, hKmin, hKle, le_trans hKle hb3, by simp, ?_, ?_⟩
+  · -- reconstruction, with or without the final assignment
+    intro l c
+    have e : ∀ k ∈ range s.K, ∀ x : K, x * A (((List.range s.K).map s.index.get).getD k 0) c = x * A (s.index.get k) c := by
+      intro k hk x; rw [hget k (Finset.mem_range.mp hk)]
+    cases ident
+    · simp only [Bool.false_eq_true, if_false]
+      rw [hsrec l c]
+      exact Finset.sum_congr rfl fun k hk => (e k hk _).symm
+    · simp only [if_true]
+      rw [rect_setRows_reconstructs s.K s.index.get s.C.get A hsrec l c]
+      apply Finset.sum_congr rfl
+      intro k hk
+      rw [RmvMat.tab_get, e k hk]
+  · intro hmin
+    have hinv : RectInv p.top s := by
+      rw [← hs]
+      exact rect_loop_inv N p.top p.maxK p.minK (tol * tol) (mul_self_nonneg tol) htop hmin _ _
+        (rect_init_inv N r p.top st.idx _ hlt hdist)
+    refine ⟨?_, ?_, ?_, ?_⟩
+    · apply List.Nodup.map_on _ List.nodup_range
+      intro a ha b hb e
+      by_contra hne
+      exact hinv.distinct a (List.mem_range.mp ha) b (List.mem_range.mp hb) hne e
+    · intro x hx
+      obtain ⟨k, hk, e⟩ := (hmem x).mp hx
+      rw [← e]; exact hinv.idx_lt k hk
+    · intro hid k hk k'
+      simp only [hid, if_true]
+      rw [hget k hk, RmvMat.tab_get]
+      exact rectmvSetRows_chosen s.index.get s.C.get s.K hinv.distinct k hk k'
+    · intro hK l hl hnot
+      have hun : ∀ k, k < s.K → s.index.get k ≠ l := fun k hk e => hnot ((hmem l).mpr ⟨k, hk, e⟩)
+      have hrow : ∀ k, (if ident = true then RmvMat.tab N s.K (rectmvSetRows s.index.get s.C.get s.K) else s.C).get l k
+          = s.C.get l k := by
+        intro k
+        cases ident
+        · simp
+        · simp only [if_true]; rw [RmvMat.tab_get]; exact rectmvSetRows_other s.index.get s.C.get l s.K hun k
+      simp only [hrow]
+      exact rect_row_norms p.top p.maxK p.minK (tol * tol) s hinv hstop hK l hl hun
+
+/-- with the default `top_k_index = -1` every row is a candidate and `minK ≤ top_k_index = N` holds by the clamps: the
+    conclusions of `rect_maxvol_spec` hold without side condition, for every `tol`, `maxK`, `min_add_K`, `minK` -/
+theorem rect_maxvol_spec_default (N r : Nat) (tol : K) (maxK minAddK minK : Option Int) (ident : Bool)
+    (st : MVState K) (A : Nat → Nat → K) (hN : r < N)
+    (hrec : Reconstructs r st A) (hdist : Distinct r st) (hlt : ∀ k, k < r → st.idx k < N) :
+    ∃ res, pyRectMaxvol N r tol maxK minAddK minK ident (-1) st.idx (fun l k => st.C k l) = some res ∧
+      r ≤ res.K ∧ res.K ≤ (rectmvParams N r maxK minAddK minK (-1)).maxK ∧ res.K ≤ N ∧ res.index.length = res.K ∧
+      (∀ l c, A l c = ∑ k ∈ range res.K, res.C.get l k * A (res.index.getD k 0) c) ∧
+      res.index.Nodup ∧ (∀ x ∈ res.index, x < N) ∧
+      (ident = true → ∀ k, k < res.K → ∀ k', res.C.get (res.index.getD k 0) k' = if k = k' then 1 else 0) ∧
+      (res.K < (rectmvParams N r maxK minAddK minK (-1)).maxK → ∀ l, l < N →
+          l ∉ res.index → ∑ k ∈ range res.K, res.C.get l k * res.C.get l k ≤ tol * tol) := by
+  have ht := rectmvParams_top_default N r maxK minAddK minK hN
+  obtain ⟨_, hb2, hb3, _, _⟩ := rectmvParams_bounds N r maxK minAddK minK (-1) hN
+  obtain ⟨res, h1, h2, _, h4, h5, h6, h7, h8⟩ := rect_maxvol_spec N r tol maxK minAddK minK ident (-1) st A hN
+    (by rw [ht]; omega) hrec hdist (by rw [ht]; exact hlt)
+  rw [ht] at h8
+  obtain ⟨g1, g2, g3, g4⟩ := h8 (by omega)
+  exact ⟨res, h1, h2, h4, h5, h6, h7, g1, g2, g3, g4⟩
+
+omit [IsStrictOrderedRing K] in
+/-- **(e) `not_tall_returns_all`: for a matrix that is not tall (`N ≤ r`) both routines return all rows `arange(N)` and
+    the `N × N` identity**, whatever the other arguments (the start state is not even looked at) -/
+theorem not_tall_returns_all (N r : Nat) (hN : N ≤ r) (tol : K) (maxK minAddK minK : Option Int) (ident : Bool) (topK : Int)
+    (tmp : Nat → Nat) (C0 : Nat → Nat → K) (tol' : K) (maxIters : Nat) (topK' : Int) (start : MVState K) :
+    pyRectMaxvol N r tol maxK minAddK minK ident topK tmp C0 = some (rectmvAll N) ∧
+    pyMaxvol N r tol' maxIters topK' start = rectmvAll N ∧
+    (rectmvAll N : RectResult K).index = List.range N ∧ (rectmvAll N : RectResult K).K = N ∧
+    (∀ l k, (rectmvAll N : RectResult K).C.get l k = if l = k then 1 else 0) := by
+  refine ⟨by simp [pyRectMaxvol, hN], by simp [pyMaxvol, hN], rfl, rfl, ?_⟩
+  intro l k; simp [rectmvAll]
+
+omit [LinearOrder K] [IsStrictOrderedRing K] in
+/-- all rows with the identity reproduce `A`: `I · A[arange(N)] = A` -/
+theorem all_rows_reconstruct (N : Nat) (A : Nat → Nat → K) (l : Nat) (hl : l < N) (c : Nat) :
+    A l c = ∑ k ∈ range N, (rectmvAll N : RectResult K).C.get l k * A ((rectmvAll N : RectResult K).index.getD k 0) c := by
+  have e : ∀ k ∈ range N, (rectmvAll N : RectResult K).C.get l k * A ((rectmvAll N : RectResult K).index.getD k 0) c
+      = if l = k then A k c else 0 := by
+    intro k hk
+    have hk' := Finset.mem_range.mp hk
+    simp only [rectmvAll, RmvMat.ofFn_get]
+    split <;> simp [hk']
+  rw [Finset.sum_congr rfl e, Finset.sum_ite_eq (range N) l]
+  simp [hl]
+
+omit [IsStrictOrderedRing K] in
+/-- for a tall matrix `py_maxvol` returns the state of its swap loop (about which `loop_invariants`,
+    `loop_stops_below_tol` speak), with `C` transposed back -/
+theorem py_maxvol_tall (N r : Nat) (hN : r < N) (tol : K) (maxIters : Nat) (start : MVState K) :
+    let s := (mvLoop r N (if tol < 1 then 1 else tol) maxIters start []).1
+    (pyMaxvol N r tol maxIters (-1) start).index = (List.range r).map s.idx ∧
+    (pyMaxvol N r tol maxIters (-1) start).K = r ∧
+    ∀ l k, (pyMaxvol N r tol maxIters (-1) start).C.get l k = s.C k l := by
+  have h : ¬ N ≤ r := by omega
+  have h2 : ¬ (N : Int) < (r : Int) := by omega
+  simp [pyMaxvol, h, h2]
+
+/-! ### non-vacuity: the hypotheses of `rect_maxvol_spec(_default)` on a concrete `3 × 1` matrix over `ℚ`
+(`A = (2, 1, 1)ᵀ`, `py_maxvol` answers row 0 with `C₀ = (1, 1/2, 1/2)ᵀ`) -/
+
+/-- the answer of `py_maxvol` on `A = (2, 1, 1)ᵀ` -/
+def rectExSt : MVState ℚ :=
+  { C := fun k l => if k = 0 then (if l = 0 then 1 else if l < 3 then 1/2 else 0) else 0, idx := fun _ => 0 }
+/-- `A = (2, 1, 1)ᵀ` -/
+def rectExA : Nat → Nat → ℚ := fun l c => if c = 0 then (if l = 0 then 2 else if l < 3 then 1 else 0) else 0
+
+theorem rectEx_reconstructs : Reconstructs 1 rectExSt rectExA := by
+  intro l c
+  simp only [Finset.sum_range_one, rectExSt, rectExA]
+  split_ifs <;> simp
+theorem rectEx_distinct : Distinct 1 rectExSt := by intro k hk k' hk' hne; omega
+theorem rectEx_lt : ∀ k, k < 1 → rectExSt.idx k < 3 := by intro k _; simp [rectExSt]
+
+example := rect_maxvol_spec_default 3 1 (1 : ℚ) none none none true rectExSt rectExA (by omega)
+  rectEx_reconstructs rectEx_distinct rectEx_lt
+example := rect_maxvol_spec 3 1 (1/2 : ℚ) (some 2) none none true (-1) rectExSt rectExA (by omega)
+  (by rw [rectmvParams_top_default 3 1 _ _ _ (by omega)]; omega)
+  rectEx_reconstructs rectEx_distinct (by rw [rectmvParams_top_default 3 1 _ _ _ (by omega)]; exact rectEx_lt)
+example := rect_reconstructs 3 3 3 1 (1 : ℚ) rectExA 2 _ (rect_init_reconstructs 3 1 3 rectExSt rectExA rectEx_reconstructs)
+example := rect_loop_inv 3 3 3 1 (1 : ℚ) zero_le_one (by omega) (by omega) 2 _
+  (rect_init_inv 3 1 3 rectExSt.idx (fun l k => rectExSt.C k l) rectEx_lt rectEx_distinct)
+example := not_tall_returns_all 2 3 (by omega) (1 : ℚ) none none none true (-1) (fun _ => 0) (fun _ _ => 0) (1 : ℚ) 10 (-1) rectExSt
+
 
 end TN.C17
